@@ -205,6 +205,7 @@ func (ex *Exec) store(lv *lval, v Val) {
 		}
 	case lvHeapField:
 		k := ex.heapKey(lv.st, lv.f)
+		ex.checkWrite(k, lv.ref)
 		ex.st.env[k] = Store(ex.get(ex.st, k), lv.ref, v.T)
 	case lvValField:
 		p := ex.load(lv.parent)
@@ -229,6 +230,7 @@ func (ex *Exec) store(lv *lval, v Val) {
 			ex.storeStructValue(lv.ref, lv.typ, v.T)
 		} else {
 			k := ex.ptrHeapKey(lv.typ)
+			ex.checkWrite(k, lv.ref)
 			ex.st.env[k] = Store(ex.get(ex.st, k), lv.ref, v.T)
 		}
 	case lvMap:
@@ -995,12 +997,6 @@ func (ex *Exec) execLoop(lp *loopParts) {
 		}
 	}
 	sortStrings(heapKeys)
-	if len(heapKeys) > 0 && ex.quiet == 0 {
-		ex.curPos = lp.pos
-		if g := ex.frameFormula(ex.st, heapKeys); g != True {
-			ex.assert("O", lname+"-frame-entry", g)
-		}
-	}
 	// 3. havoc
 	var keys []string
 	for k := range mod {
@@ -1049,12 +1045,6 @@ func (ex *Exec) execLoop(lp *loopParts) {
 	if !ex.st.dead {
 		ex.curPos = lp.pos
 		invs("preserved")
-		if len(heapKeys) > 0 && ex.quiet == 0 {
-			ex.curPos = lp.pos
-			if g := ex.frameFormula(ex.st, heapKeys); g != True {
-				ex.assert("O", lname+"-frame-preserved", g)
-			}
-		}
 		if v0 != nil {
 			v1 := variant()
 			ex.curPos = lp.pos
